@@ -42,6 +42,9 @@ TEMPLATES = [
     "def {n}(x): return _space.parent.{a}(x) + {k}",
     # (not drawn by gen_formula; scenario families only) a reference read as an attribute of the space itself
     "def {n}(x): return _space.{r} + x",
+    # (not drawn by gen_formula; motif programs only) a value that depends on the NAME of the cells' space and of
+    # its ancestors (the model's name left out): renaming a space changes what the formula returns
+    "def {n}(x): return sum(map(ord, _space.fullname.split('.', 1)[1])) * 10 + x + {k}",
 ]
 N_GEN_TEMPLATES = 16
 N_BASE_TEMPLATES = 11
